@@ -375,6 +375,173 @@ def r04g(ctx, run):
         raise LookupError("zero_padding samples evaluated: %d" % n)
 
 
+def r04h(ctx, run):
+    """a constant table of comptime results: expr_to_const_data's array arm evaluated from source on model items (9 value bytes, stride 16; 5 bytes, stride
+    8; 2 bytes, stride 2).  Item i's bytes must sit at i * stride - where every reader (element access = base + i * stride) looks for them - and every
+    other byte must be a DEFINED byte: the data goes into the object file as it is (C21)."""
+    from symint import SymInterp
+    from absint import Obj, Term, Variant, Panic, CannotEstablish, _Return
+    CG = "codegen/src/compiler/functions.rs"
+    fn = ctx.syn.fn("FunctionCompiler::expr_to_const_data", CG)
+    arm = None
+    for m in synq.matches_on(fn.body):
+        for h, p_, g, b, a in synq.match_table(m):
+            if h and h.endswith("Expr::ArrayLiteral"):
+                arm = (p_, b)
+    if arm is None:
+        raise LookupError("the ArrayLiteral arm of expr_to_const_data")
+    UN = "<uninitialised>"
+
+    class Buf:
+        def __init__(self, cap=0, data=None):
+            self.cap = cap
+            self.data = data if data is not None else []
+
+    class AI(SymInterp):
+        def eval(self, e, env):
+            k = e.get("k")
+            if k in ("ref",) or (k == "un" and e.get("op") in ("*", "&")):
+                return self.eval(e["e"], env)
+            if k == "cast":
+                return self.eval(e["e"], env)
+            if k == "try":
+                return self.eval(e["e"], env)
+            if k == "index" and e["i"].get("k") == "range":
+                b = self.eval(e["e"], env)
+                if isinstance(b, Buf):
+                    lo = self.eval(e["i"]["lo"], env) if e["i"].get("lo") is not None else 0
+                    hi = self.eval(e["i"]["hi"], env) if e["i"].get("hi") is not None else len(b.data)
+                    if not (0 <= lo <= hi <= len(b.data)):
+                        raise Panic("range %s..%s out of %d bytes" % (lo, hi, len(b.data)))
+                    return ("view", b, lo, hi)
+            if k == "macro" and e.get("name") == "vec" and e.get("tokens") and ";" in e["tokens"]:
+                val, cnt = e["tokens"].split(";", 1)
+                n_ = self.eval_text(cnt.strip(), env)
+                return Buf(n_, [int(val.strip().rstrip("u8").rstrip("_") or 0)] * n_)
+            return super().eval(e, env)
+
+        def eval_text(self, txt, env):
+            # `a * b.len()` style counts: evaluate through the names of the environment
+            import re as _re
+            t = _re.sub(r"\bas\s+usize\b", "", txt)
+            t = _re.sub(r"(\w+)\s*\.\s*len\s*\(\s*\)", lambda m_: str(len(env[m_.group(1)])), t)
+            t = _re.sub(r"[A-Za-z_]\w*", lambda m_: str(env[m_.group(0)]) if m_.group(0) in env else m_.group(0), t)
+            return int(eval(t, {"__builtins__": {}}, {}))
+
+        def default_method(self, recv, m, args, e):
+            if isinstance(recv, Buf):
+                if m in ("as_ptr", "as_mut_ptr"):
+                    return ("ptr", recv, 0)
+                if m == "capacity":
+                    return recv.cap
+                if m == "len":
+                    return len(recv.data)
+                if m == "set_len":
+                    n_ = args[0]
+                    if n_ > recv.cap:
+                        raise Panic("set_len beyond the capacity")
+                    recv.data = (recv.data + [UN] * n_)[:n_] if len(recv.data) < n_ else recv.data[:n_]
+                    return None
+                if m in ("iter", "into_iter", "to_vec", "as_slice"):
+                    return list(recv.data)
+                if m == "extend":
+                    recv.data += list(args[0])
+                    recv.cap = max(recv.cap, len(recv.data))
+                    return None
+                if m == "extend_from_slice":
+                    src_ = args[0]
+                    recv.data += list(src_[1].data[src_[2]:src_[3]]) if isinstance(src_, tuple) and src_[0] == "view" else list(src_.data if isinstance(src_, Buf) else src_)
+                    recv.cap = max(recv.cap, len(recv.data))
+                    return None
+                if m == "resize":
+                    n_, v = args
+                    recv.data = (recv.data + [v] * n_)[:n_]
+                    recv.cap = max(recv.cap, n_)
+                    return None
+                if m in ("into", "into_boxed_slice", "clone"):
+                    return recv
+            if isinstance(recv, tuple) and recv and recv[0] == "ptr" and m == "add":
+                return ("ptr", recv[1], recv[2] + args[0])
+            if isinstance(recv, tuple) and recv and recv[0] == "view" and m == "copy_from_slice":
+                _, b, lo, hi = recv
+                src_ = args[0]
+                vals = list(src_[1].data[src_[2]:src_[3]]) if isinstance(src_, tuple) and src_[0] == "view" else list(src_.data if isinstance(src_, Buf) else src_)
+                if len(vals) != hi - lo:
+                    raise Panic("copy_from_slice: %d bytes into a window of %d" % (len(vals), hi - lo))
+                b.data[lo:hi] = vals
+                return None
+            if isinstance(recv, list) and m == "take" and isinstance(args[0], int):
+                return recv[:args[0]]
+            return super().default_method(recv, m, args, e)
+
+    def copy_nonoverlapping(i, a):
+        src_, dst, n_ = a
+        if not (isinstance(src_, tuple) and isinstance(dst, tuple)):
+            raise CannotEstablish("copy_nonoverlapping of %r" % (a,))
+        sb, so = src_[1], src_[2]
+        db, do = dst[1], dst[2]
+        if so + n_ > len(sb.data):
+            raise Panic("copy_nonoverlapping reads %d bytes from an item of %d" % (n_, len(sb.data)))
+        if do + n_ > db.cap:
+            raise Panic("copy_nonoverlapping writes past the capacity")
+        if len(db.data) < db.cap:
+            db.data = db.data + [UN] * (db.cap - len(db.data))
+            db.hidden_len = True
+        db.data[do:do + n_] = sb.data[so:so + n_]
+        return None
+    n = 0
+    for size, stride, count in ((9, 16, 3), (5, 8, 2), (2, 2, 4), (17, 24, 2)):
+        items = [Term("item%d" % i_) for i_ in range(count)]
+        item_bytes = {repr(it_): [16 * (i_ + 1) + (b_ % 16) for b_ in range(size)] for i_, it_ in enumerate(items)}
+        item_ty = Obj("Ty", size=size, stride=stride)
+
+        class TI(AI):
+            pass
+        it = TI(funcs={"Vec::with_capacity": lambda i, a: Buf(a[0]), "Vec::new": lambda i, a: Buf(0), "std::ptr::copy_nonoverlapping": copy_nonoverlapping,
+                       "ptr::copy_nonoverlapping": copy_nonoverlapping, "copy_nonoverlapping": copy_nonoverlapping},
+                methods={"size": lambda i, r, a: r.fields["size"], "stride": lambda i, r, a: r.fields["stride"],
+                         "expr_to_const_data": lambda i, r, a: Buf(size, list(item_bytes[repr(a[1])]))},
+                macros={"assert_ne": lambda i, e, env: None, "assert": lambda i, e, env: None, "assert_eq": lambda i, e, env: None})
+        orig_eval = it.eval
+
+        def ev(e, env, orig_eval=orig_eval):
+            if e.get("k") == "index" and e["e"].get("k") == "index" and canon(e["e"]["e"]) == "self.tys":
+                return item_ty
+            return orig_eval(e, env)
+        it.eval = ev
+        desc = "table of %d items of %d bytes (stride %d)" % (count, size, stride)
+        env = {"self": Obj("self", tys=Term("tys")), "loc": Term("loc"), "items": list(items), "expr": Term("expr")}
+        try:
+            try:
+                out = it.eval(arm[1], env)
+            except _Return as r:
+                out = r.v
+        except (Panic, CannotEstablish) as c:
+            run.finding(fn.qual, "const-table:" + desc, fn.file, fn.ln, "cannot establish the bytes of a constant %s: %s" % (desc, getattr(c, "what", c)))
+            continue
+        n += 1
+        if not isinstance(out, Buf):
+            run.finding(fn.qual, "const-table:" + desc, fn.file, fn.ln, "the array arm does not yield the byte buffer it filled (%r)" % (out,))
+            continue
+        data = out.data
+        problems = []
+        if len(data) != stride * count:
+            problems.append("%d bytes instead of %d" % (len(data), stride * count))
+        for i_, it_ in enumerate(items):
+            got = data[i_ * stride:i_ * stride + size]
+            if got != item_bytes[repr(it_)]:
+                problems.append("item %d is not at offset %d = %d * stride (found %s..)" % (i_, i_ * stride, i_, got[:3]))
+                break
+        undefined = [j for j, b_ in enumerate(data) if b_ == UN]
+        if undefined and not problems:
+            problems.append("bytes %s..%s (between an item's size and its stride) are never written: whatever the allocator left there goes into the object file"
+                            % (undefined[0], undefined[-1]))
+        run.check(not problems, fn.site(), "%s: every item at i * stride, every other byte defined" % desc, fn.qual, "const-table:" + desc, fn.file, fn.ln,
+                  "a constant %s is laid out wrongly: %s" % (desc, "; ".join(problems)))
+    if n < 3:
+        raise LookupError("constant tables evaluated: %d" % n)
+
+
 def r04e(ctx, run):
     """every comptime block that eval_comptime_blocks runs gets a recorded result: in the evaluation loop no path from taking a block off the
     work list back to the loop head avoids `results.insert`.  (A block without a recorded result is compiled again by the code generator, into
@@ -581,6 +748,7 @@ def rules(ctx):
         Rule("R04.b", "all comptime blocks are evaluated before code generation, which receives those results and never recompiles an evaluated block", 9, r04b),
         Rule("R04.e", "every comptime block the JIT runs gets a recorded result (must-pass-through results.insert in the evaluation loop)", 1, r04e),
         Rule("R04.g", "the canonicalisation of captured bytes keeps every byte of the value and zeroes the rest (zero_padding evaluated on sample layouts)", 13, r04g),
+        Rule("R04.h", "constant tables: item i at i * stride, every other byte defined (expr_to_const_data's array arm evaluated on model items)", 3, r04h),
         Rule("R04.f", "a global's constant data is converted to (or tested against) the declared type it is read at", 1, r04f),
         Rule("R04.d", "a comptime expression and its body are recorded at the same type (inference and weak-type replacement)", 2, r04d),
         Rule("R04.c", "capture table: read-back type width = Cranelift type width; serialisation at the recorded width", 20, r04c),
